@@ -336,6 +336,10 @@ def run_op(op, world):
             if fn == "landscape":
                 res = ld.construct_mapping_tasks(model.landscape, max_shifts=ms_px, output_shape=model.input_shape, var_kwarg=var).compute()
                 return [np.asarray(x) for x in res]
+            if fn == "fit":
+                # model.fit mapped over the loader: every task transforms its own image with its own result
+                res = ld.construct_mapping_tasks(model.fit, max_shifts=ms_px, output_shape=model.input_shape).compute()
+                return [(np.asarray(img), (int(r.label), np.asarray(r.shift), np.asarray(r.quat), float(r.score))) for img, r in res]
             raise ValueError(fn)
         if kind == "group_align":
             ms3 = ms if isinstance(ms, tuple) else (ms, ms, ms)
@@ -413,7 +417,9 @@ def gen_op(rng: random.Random, world_spec, kinds=None):
         if kind in ("align_multi_templates", "score"):
             op["n_templates"] = rng.randint(1, 3) if kind == "score" else rng.randint(2, 3)
         if kind == "shared_model":
-            op["method"] = rng.choice(["align", "score", "landscape"])
+            op["method"] = rng.choice(["align", "score", "landscape", "fit"])
+            if op["method"] == "fit" and p["rot"] is None and rng.random() < 0.7 and p["model"] != "FSC":
+                p["rot"] = [[10, 10], [0, 0], [0, 0]]
             if p["mask"] == "soft":
                 p["mask"] = "array"
             if op["method"] == "landscape" and p["model"] == "FSC":
